@@ -24,6 +24,7 @@ import (
 	"strconv"
 	"strings"
 	"sync"
+	"unicode/utf8"
 	"unique"
 )
 
@@ -102,6 +103,21 @@ func hasNormalizationHeader(m map[string]struct{}, field string) bool {
 // normalizeHeaderValue normalizes a header value according to the rules defined
 // in RFC 9111 §4.1. Assumes a canonicalized header field name.
 func normalizeHeaderValue(field, value string) string {
+	return storableValue(normalizeFieldValue(field, value))
+}
+
+// storableValue keeps a value comparable after it went through the JSON-encoded index. JSON cannot
+// carry bytes that are not valid UTF-8: they would be replaced by U+FFFD, the stored value would never
+// compare equal to the request again, and every request would add another reference. Such a value is
+// kept in ASCII-quoted form behind a NUL, which no field value that can be sent contains.
+func storableValue(v string) string {
+	if utf8.ValidString(v) {
+		return v
+	}
+	return "\x00" + strconv.QuoteToASCII(v)
+}
+
+func normalizeFieldValue(field, value string) string {
 	if value == "" {
 		return ""
 	}
